@@ -963,7 +963,7 @@ class Exec:
                         if k.arg:
                             amap[k.arg] = k.value if depth == 0 else None
                     con = self.registry.get(target)
-                    if con is not None and target not in self.contract.inline and not con.always_inline and target != self.contract.target:
+                    if con is not None and target not in self.contract.inline and not con.always_inline and target != self.contract.base:
                         for path in con.modifies:
                             on, _, fn_ = path.partition(".")
                             if on == "self" and fn_:
@@ -971,7 +971,7 @@ class Exec:
                             elif not fn_ and amap.get(on) is not None:
                                 heaps.append(amap[on])
                         continue
-                    if target == self.contract.target:
+                    if target == self.contract.base:
                         for path in self.contract.modifies:
                             on, _, fn_ = path.partition(".")
                             if on == "self" and fn_:
@@ -1865,7 +1865,7 @@ class Exec:
     def call_repo_function(self, fref, args, kwargs, self_val, frame):
         target = self.target_of(fref)
         mname = getattr(fref.node, "name", None)
-        if mname in self.contract.opaque_methods and target != self.contract.target:
+        if mname in self.contract.opaque_methods and target != self.contract.base:
             # dynamic dispatch on AST nodes (DESIGN 2.3 (d)): an opaque effectful call
             self.trace_event("call", mname, tuple(args[1:] if self_val is not None else args))
             self.used_intrinsics.add(f"dynamic dispatch {mname}(): opaque call (any subclass), result unconstrained; recorded in the ghost call trace")
@@ -1885,12 +1885,12 @@ class Exec:
             target
             and not self.pure
             and target in self.registry
-            and target != self.contract.target
+            and target != self.contract.base
             and target not in self.contract.inline
             and not self.registry[target].always_inline
         ):
             return self.apply_contract(self.registry[target], fref, args, kwargs)
-        if target and target == self.contract.target and self.depth > 0 and target in self.registry and not getattr(fref, "undecorated", False):
+        if target and target == self.contract.base and self.depth > 0 and target in self.registry and not getattr(fref, "undecorated", False):
             # recursive call: use own contract (induction on call depth)
             return self.apply_contract(self.registry[target], fref, args, kwargs)
         if target:
@@ -1900,7 +1900,7 @@ class Exec:
         if isinstance(node, ast.Lambda):
             return self.call_function(fref, args, kwargs, self_val)
         # generator functions can only be consumed by modelled constructs
-        gen_target = _is_generator(node) and self.depth <= 0 and target == self.contract.target
+        gen_target = _is_generator(node) and self.depth <= 0 and target == self.contract.base
         if _is_generator(node) and not gen_target:
             return Tagged("genfunc", fref, args, kwargs, self_val)
         self.depth += 1
